@@ -259,76 +259,98 @@ Definition set_obj (l : list (Z * Qc)) (additive : bool) (s : st) : st * res :=
   let s1 := if additive then s0 else set_oc s0 (fun _ => q0) in
   set_obj_loop l s1.
 
-(* Model.add_reactions([r]) for a detached reaction object built from fresh metabolite objects *)
-Definition add_rxn (r : Z) (s : st) : st :=
-  if rin s r then s else
-  let listed := fun m => negb (isz (sto s r m)) in
-  let s1 := record (URxnOut r) (set_rin s (upd (rin s) r true)) in     (* r._model = self; context(setattr None) *)
-  (* metabolites already in the model learn about the reaction (undo recorded); the others are adopted:
-     the reaction's own fresh object, which knows only this reaction, joins the model              *)
-  let olds := filter (fun m => min s m) (mets_of s r) in
-  let news := filter (fun m => negb (min s m)) (mets_of s r) in
-  let s2 := set_back s1 (fun m r' => if listed m then (if min s m then (r' =? r) || back s m r' else (r' =? r))
-                                     else back s m r') in
-  let s3 := model_add_mets news (record_all (map (fun m => UBackRemove m r) olds) s2) in
-  let s4 := record (URxnOut r) s3 in                                    (* context(reactions.__isub__) *)
-  let s5 := record (USolverRemoveVars r) (solver_add_var (R r) (solver_add_var (F r) s4)) in
-  populate r s5.
+(* From here on every operation is given as  record_all (X_records ..) (X_content ..):
+   the new content written as ONE explicit record, and the undo closures it registers, oldest first. *)
 
-(* the part of Model.remove_metabolites common to both modes: leave the model, drop the row *)
-Definition drop_met (m : Z) (s : st) : st :=
-  let s2 := set_min s (upd (min s) m false) in
-  let s3 := record (USolverAddCons m) (solver_remove_cons m s2) in
-  record (UMetsIAdd m) s3.
+(* Model.add_reactions([r]) for a detached reaction object built from fresh metabolite objects.
+   Metabolites already in the model learn about the reaction; the others are adopted: the reaction's own
+   fresh object, which knows only this reaction, joins the model and gets a row.  Then _populate_solver. *)
+Definition add_rxn_content (r : Z) (s : st) : st :=
+  let listed := fun m => negb (isz (sto s r m)) in
+  let '((fl, fu), (rl, ru)) := split_bounds (lb s r) (ub s r) in
+  mkSt (upd (rin s) r true) (lb s) (ub s) (sto s)
+       (fun m => min s m || listed m)
+       (fun m r' => if listed m then (if min s m then (r' =? r) || back s m r' else (r' =? r)) else back s m r')
+       (fun n => if fst n =? r then true else vin s n)
+       (fun n => if name_eqb n (F r) then fl else if name_eqb n (R r) then rl else vlb s n)
+       (fun n => if name_eqb n (F r) then fu else if name_eqb n (R r) then ru else vub s n)
+       (fun m => cin s m || listed m)
+       (fun m n => if name_eqb n (F r) && listed m then sto s r m
+                   else if name_eqb n (R r) && listed m then (- sto s r m)%Qc else co s m n)
+       (oc s) (odir s) (ctx s) (rids s) (mids s).
+Definition add_rxn_records (r : Z) (s : st) : list undo :=
+  [URxnOut r] ++                                                          (* setattr(r, "_model", None) *)
+  map (fun m => UBackRemove m r) (filter (fun m => min s m) (mets_of s r)) ++
+  flat_map (fun m => [USolverRemoveCons m; UMetsISub m]) (filter (fun m => negb (min s m)) (mets_of s r)) ++
+  [URxnOut r; USolverRemoveVars r].                                       (* reactions.__isub__, solver.remove *)
+Definition add_rxn (r : Z) (s : st) : st :=
+  if rin s r then s else record_all (add_rxn_records r s) (add_rxn_content r s).
+
+(* leaving the model and dropping the row: the part common to both modes of Model.remove_metabolites *)
+Definition drop_records (m : Z) : list undo := [USolverAddCons m; UMetsIAdd m].
 
 (* Model.remove_metabolites([m], destructive=False): every reaction that lists m loses it *)
+Definition remove_met_nd_content (m : Z) (s : st) : st :=
+  mkSt (rin s) (lb s) (ub s)
+       (fun r m' => if (m' =? m) && back s m r then q0 else sto s r m')
+       (upd (min s) m false)
+       (upd (back s) m (fun _ => false))
+       (vin s) (vlb s) (vub s)
+       (upd (cin s) m false)
+       (upd (co s) m (fun _ => q0))
+       (oc s) (odir s) (ctx s) (rids s) (mids s).
 Definition remove_met_nd (m : Z) (s : st) : st :=
   if negb (min s m) then s else
-  let rs := rxns_of s m in
-  let s1 := set_sto s (fun r m' => if (m' =? m) && back s m r then q0 else sto s r m') in
-  let s2 := set_co s1 (fun m' n => if (m' =? m) && back s m (fst n) then q0 else co s1 m' n) in
-  let s3 := set_back s2 (upd (back s2) m (fun _ => false)) in
-  let s4 := record_all (map (fun r => USubSt r [(m, (- sto s r m)%Qc)]) rs) s3 in
-  drop_met m s4.
+  record_all (map (fun r => USubSt r [(m, (- sto s r m)%Qc)]) (rxns_of s m) ++ drop_records m)
+             (remove_met_nd_content m s).
 
 (* Model.remove_reactions([r], remove_orphans) *)
 Definition orphaned (s : st) (r : Z) (m : Z) : bool :=
   negb (isz (sto s r m)) && back s m r && min s m &&
   forallb (fun r' => (r' =? r) || negb (back s m r')) (rids s).
-(* undo closures registered while removing reaction r, oldest first *)
 Definition removal_records (s : st) (r : Z) (orphans : bool) : list undo :=
   (if negb (isz (oc s (F r))) then [UObjCoefs r (oc s (F r))] else []) ++
   [UPopulate r; URxnIn r; USolverAddVars r] ++
-  flat_map (fun m => UBackAdd m r :: (if orphans && orphaned s r m then [USolverAddCons m; UMetsIAdd m] else []))
+  flat_map (fun m => UBackAdd m r :: (if orphans && orphaned s r m then drop_records m else []))
            (filter (fun m => back s m r) (mets_of s r)).
+Definition remove_rxn_content (r : Z) (orphans : bool) (s : st) : st :=
+  let gone := fun m => orphans && orphaned s r m in
+  mkSt (upd (rin s) r false) (lb s) (ub s) (sto s)
+       (fun m => min s m && negb (gone m))
+       (fun m r' => if (r' =? r) && negb (isz (sto s r m)) then false else back s m r')
+       (fun n => if fst n =? r then false else vin s n)
+       (vlb s) (vub s)
+       (fun m => cin s m && negb (gone m))
+       (fun m n => if (fst n =? r) || gone m then q0 else co s m n)
+       (fun n => if fst n =? r then q0 else oc s n)
+       (odir s) (ctx s) (rids s) (mids s).
 Definition remove_rxn (r : Z) (orphans : bool) (s : st) : st :=
   if negb (rin s r) then s else
-  let gone := fun m => orphans && orphaned s r m in
-  let s1 := set_rin s (upd (rin s) r false) in
-  let s2 := set_vin s1 (fun n => if (fst n =? r) then false else vin s n) in
-  let s3 := set_co s2 (fun m n => if (fst n =? r) || gone m then q0 else co s m n) in
-  let s4 := set_oc s3 (fun n => if (fst n =? r) then q0 else oc s n) in
-  let s5 := set_back s4 (fun m r' => if (r' =? r) && negb (isz (sto s r m)) then false else back s m r') in
-  let s6 := set_min s5 (fun m => min s m && negb (gone m)) in
-  let s7 := set_cin s6 (fun m => cin s m && negb (gone m)) in
-  record_all (removal_records s r orphans) s7.
+  record_all (removal_records s r orphans) (remove_rxn_content r orphans s).
 
 (* Model.remove_metabolites([m], destructive=True): every reaction that lists m leaves the model *)
+Definition remove_met_d_content (m : Z) (s : st) : st :=
+  let dead := fun r => back s m r && rin s r in
+  mkSt (fun r => rin s r && negb (dead r)) (lb s) (ub s) (sto s)
+       (upd (min s) m false)
+       (fun m' r => if dead r && negb (isz (sto s r m')) then false else back s m' r)
+       (fun n => vin s n && negb (dead (fst n)))
+       (vlb s) (vub s)
+       (upd (cin s) m false)
+       (fun m' n => if (m' =? m) || dead (fst n) then q0 else co s m' n)
+       (fun n => if dead (fst n) then q0 else oc s n)
+       (odir s) (ctx s) (rids s) (mids s).
 Definition remove_met_d (m : Z) (s : st) : st :=
   if negb (min s m) then s else
-  let dead := fun r => back s m r && rin s r in
-  let s1 := set_rin s (fun r => rin s r && negb (dead r)) in
-  let s2 := set_vin s1 (fun n => vin s n && negb (dead (fst n))) in
-  let s3 := set_co s2 (fun m' n => if dead (fst n) then q0 else co s m' n) in
-  let s4 := set_oc s3 (fun n => if dead (fst n) then q0 else oc s n) in
-  let s5 := set_back s4 (fun m' r => if dead r && negb (isz (sto s r m')) then false else back s m' r) in
-  let s6 := record_all (flat_map (fun r => removal_records s r false) (filter (rin s) (rxns_of s m))) s5 in
-  drop_met m s6.
+  record_all (flat_map (fun r => removal_records s r false) (filter (rin s) (rxns_of s m)) ++ drop_records m)
+             (remove_met_d_content m s).
 
-(* Reaction.__imul__(c) *)
+(* Reaction.__imul__(c): scale the coefficients, swap and negate the bounds for c < 0 (through the
+   context-aware bounds setter), re-populate the solver.  (The bounds and the coefficients do not
+   depend on each other, so the setter is applied first here.)                                  *)
 Definition imul (r : Z) (c : Qc) (s : st) : st :=
-  let s1 := set_sto s (upd (sto s) r (fun m => (sto s r m * c)%Qc)) in
-  let s2 := if qlt c q0 then fst (set_bounds r (eb_opp (ub s1 r)) (eb_opp (lb s1 r)) s1) else s1 in
+  let s1 := if qlt c q0 then fst (set_bounds r (eb_opp (ub s r)) (eb_opp (lb s r)) s) else s in
+  let s2 := set_sto s1 (upd (sto s1) r (fun m => (sto s r m * c)%Qc)) in
   let s3 := if rin s2 r then populate r s2 else s2 in
   if rctx s3 r then record (UImul r (/ c)%Qc) (record (UPopulate r) s3) else s3.
 
